@@ -65,3 +65,12 @@ class FindNeighbouringProtoclusters:
                     for i in range(len(protoclusters)) for j in range(len(protoclusters)) if i < j)
                 for group in result),
     }
+
+
+@contract(f"{FILE}::_find_neighbouring_protoclusters", props=["C05"])
+class FindNeighbouringProtoclustersFour(FindNeighbouringProtoclusters):
+    """Four protoclusters on one stretch each (with three, the extra first/last comparison hides a scan that stops early)."""
+    variant = True
+    params = {"protoclusters": ListOf(Rec("Protocluster", label="ProtoclusterSimpleExtent", location=FL), 4, 4)}
+    requires = FindNeighbouringProtoclusters.__dict__["requires"]
+    ensures = FindNeighbouringProtoclusters.__dict__["ensures"]
